@@ -635,6 +635,38 @@ def _big_clauses(e):
             cs.append("%d = 1" % st[0])
         for a, b in zip(st, st[1:]):
             cs.append("NextStep(%d, %d, %d) = %d" % (T, J, a, b))
+    elif e["op"] == "scale":
+        if "small" not in o or "big" not in o:
+            return ["FALSE"]
+        sm, bg = o["small"], o["big"]
+        if "panic" in sm or "hang" in sm or "panic" in bg or "hang" in bg:
+            return ["FALSE"]
+        if "ok" in sm:
+            cs.append(("%d * %d = %d" % (i["K"], sm["ok"], bg["ok"])) if "ok" in bg else "FALSE")
+        else:
+            cs.append("TRUE" if "err" in bg else "FALSE")
+    elif e["op"] == "time_ops":
+        if "fz" not in o:
+            return ["FALSE"]
+        a, b, k, lst = i["a"], i["b"], i["k"], i["list"]
+        B = lambda v: "TRUE" if v else "FALSE"
+        cs += ["FromTimeZero(%d) = %d" % (a, o["fz"]), "SinceTimeZero(%d) = %d" % (a, o["sz"]),
+               "ClosedSinceTimeZero(%d) = %d" % (a, o["csz"]), "%d + %d = %d" % (a, b, o["oadd"]),
+               "%d + %d = %d" % (a, b, o["dadd"]), "%d + %d = %d" % (a, b, o["sadd"]),
+               "SatSub(%d, %d) = %d" % (a, b, o["dsat"]), "SatSub(%d, %d) = %d" % (a, b, o["ssat"]),
+               "%d * %d = %d" % (a, k, o["dmul"]), "%d * %d = %d" % (a, k, o["smul"]),
+               "%d = %d" % (a, o["d2s"]), "%d = %d" % (a, o["s2d"]),
+               "%s = %d" % (" + ".join(str(x) for x in lst), o["dsum"]), "%s = %d" % (" + ".join(str(x) for x in lst), o["ssum"]),
+               "(%d > 0) = %s" % (a, B(o["nz"])), "(%d = 0) = %s" % (a, B(o["z"])), "(%d = 0) = %s" % (a, B(o["snone"])),
+               "(%d < %d) = %s" % (a, b, B(o["lt"])), "(%d < %d) = %s" % (a, b, B(o["olt"])),
+               # the closed and the half-open conventions are inverse to each other
+               "ClosedFromTimeZero(ClosedSinceTimeZero(%d)) = %d" % (a, a)]
+        cs.append(("ClosedFromTimeZero(%d) = %d" % (a, o["cfz"])) if a >= 1 else B("cfz" not in o))
+        cs.append(("%d - %d = %d" % (b, a, o["dist"])) if a <= b else B("dist" not in o))
+        if a >= b:
+            cs += ["%d - %d = %d" % (a, b, o["dsub"]), "%d - %d = %d" % (a, b, o["ssub"])]
+        if b >= 1:
+            cs += ["%d \\div %d = %d" % (a, b, o["ddiv"]), "%d %% %d = %d" % (a, b, o["drem"])]
     else:
         raise ToolError("unknown large-magnitude op %s" % e["op"])
     return cs
